@@ -25,7 +25,8 @@ MM_FUNCS = [CLS + f for f in (
     'treatment_group_size_range', '_control_group_size_generator',
     'treatment_group_generator', 'control_group_generator',
     '_constraint_not_satisfied', 'design_within_constraints',
-    'exhaustive_search.skip_if_subset', 'exhaustive_search')]
+    'exhaustive_search.skip_if_subset', 'exhaustive_search',
+    'greedy_search')]
 
 
 class PropertyDef:
@@ -84,13 +85,12 @@ define(
      mm(['geos_over_budget', 'geos_too_large', 'geos_must_include',
          'geos_within_constraints', 'geo_assignments',
          'treatment_group_generator', 'control_group_generator',
-         'exhaustive_search'])],
+         'exhaustive_search', 'greedy_search'])],
     ENGINE_TRUST + PANDAS_TRUST + [
         'TBRMMData.__init__ establishes the data invariant (bounded monitor '
         'C15 only)',
-        'index -> ID transfer of the returned list (search_results) and the '
-        'greedy search are covered by the bounded monitor until their '
-        'contracts are discharged',
+        'index -> ID transfer of the returned list (search_results) is '
+        'covered by the bounded monitor until its contract is discharged',
     ],
     ['designs are stated at index level at the push site; legality of the '
      'admitted set is proved at ID level'],
@@ -110,7 +110,8 @@ define(
     'C02', 'proof',
     [mm(['treatment_group_size_range', '_control_group_size_generator',
          'control_group_generator', '_constraint_not_satisfied',
-         'design_within_constraints', 'exhaustive_search'])],
+         'design_within_constraints', 'exhaustive_search',
+         'greedy_search'])],
     ENGINE_TRUST + PANDAS_TRUST + [
         'required impact / share are uninterpreted functions of the group '
         'series (their numerics belong to C04-C06)'],
@@ -143,7 +144,7 @@ define(
     [('tbrmmdata', ['TBRMMData.aggregate_time_series',
                     'TBRMMData.aggregate_geo_share',
                     'TBRMMData.geo_index.setter'], False),
-     mm(['exhaustive_search'])],
+     mm(['exhaustive_search', 'greedy_search'])],
     ENGINE_TRUST + PANDAS_TRUST + [
         'copy.deepcopy returns a fresh, disjoint, field-wise equal object '
         'graph',
@@ -213,7 +214,7 @@ define(
 
 define(
     'C13', 'exploration',
-    [mm(['design_within_constraints'])],
+    [mm(['design_within_constraints', 'greedy_search'])],
     ENGINE_TRUST,
     [],
     'Bounded run-time contract: greedy designs lie in the brute-force feasible '
